@@ -50,7 +50,8 @@ class FuncTranslator:
         self.fn = fn
         self.env = {}  # local name -> type
         for a in fn.args.args:
-            self.env[a.arg] = "bool" if a.arg in bool_params else "Z"
+            ann = ast.unparse(a.annotation) if a.annotation is not None else ""
+            self.env[a.arg] = "bool" if a.arg in bool_params else ("R" if ann == "FloatLike" else "Z")
         self.ret_type = None
 
     def fail(self, node, why):
@@ -72,6 +73,13 @@ class FuncTranslator:
                 return mangle(e.id), "Z"
             self.fail(e, "unknown name")
         if isinstance(e, ast.BinOp):
+            ta, tya = self.expr(e.left, env)
+            tb, tyb = self.expr(e.right, env)
+            if "R" in (tya, tyb):
+                rop = {ast.Add: "Rplus", ast.Sub: "Rminus", ast.Mult: "Rmult", ast.Div: "Rdiv"}.get(type(e.op))
+                if rop is None:
+                    self.fail(e, "unsupported real operator")
+                return f"({rop} {self.as_r(e.left, env)} {self.as_r(e.right, env)})", "R"
             op = BINOPS.get(type(e.op))
             if op is None:
                 self.fail(e, "unsupported binary operator")
@@ -136,7 +144,13 @@ class FuncTranslator:
                     self.fail(e, "table index arity")
                 i = self.as_z(idx.elts[0], env)
                 j = self.as_z(idx.elts[1], env)
+                if tkind == "R":
+                    return f"(rlookup2 {tname} {i} {j})", "R"
                 return f"(tlookup2 {tname} {i} {j})", tkind
+            if tkind == "RF":
+                return f"({tname} {self.as_z(idx, env)})", "R"
+            if tkind == "R":
+                return f"(rlookup {tname} {self.as_z(idx, env)})", "R"
             return f"(tlookup {tname} {self.as_z(idx, env)})", tkind
         self.fail(e, "unsupported expression")
 
@@ -144,7 +158,17 @@ class FuncTranslator:
         t, ty = self.expr(e, env)
         if ty == "bool":
             return f"(b2z {t})"
+        if ty == "R":
+            self.fail(e, "real value used as integer")
         return t
+
+    def as_r(self, e, env):
+        t, ty = self.expr(e, env)
+        if ty == "R":
+            return t
+        if ty == "bool":
+            return f"(IZR (b2z {t}))"
+        return f"(IZR {t})"
 
     def as_bool(self, e, env):
         t, ty = self.expr(e, env)
@@ -244,7 +268,7 @@ class ModuleTranslator:
         ret = ft.ret_type
         cret = {"Z": "Z", "bool": "bool", "R": "R"}[ret]
         name = coqname or fn.name
-        ps = " ".join(f"({mangle(n)} : {'bool' if t == 'bool' else 'Z'})" for n, t in params)
+        ps = " ".join(f"({mangle(n)} : {t})" for n, t in params)
         self.out.append(f"Definition {name} {ps} : {cret} :=\n  {body}.\n")
         self.funcs[name] = {"params": params, "ret": ret}
         self.log.append(f"{name}/{len(params)}:{ret}")
